@@ -287,3 +287,21 @@ class PE:
                 self.store(tt, item if isinstance(item, RF) else K(item), s)
             return
         self.err("assignment target not interpreted: %s" % ast.unparse(t)[:40], s)
+
+
+def resolve(pe, node):
+    """Copy of an expression with conditional expressions decided by the scenario and constant locals substituted:
+    `a if c else b` -> the selected operand; a local bound to a known string -> the string."""
+    from .model import fresh
+
+    class T(ast.NodeTransformer):
+        def visit_IfExp(self, n):
+            return self.visit(n.body if pe.truth(n.test) else n.orelse)
+
+        def visit_Name(self, n):
+            v = pe.env.get(n.id)
+            if isinstance(n.ctx, ast.Load) and isinstance(v, K) and isinstance(v.v, (str, bool)):
+                return ast.copy_location(ast.Constant(value=v.v), n)
+            return n
+
+    return T().visit(fresh(node))
